@@ -961,7 +961,7 @@ func main() {
 	st := &hx.Stats{Rule: "a case is one history on a fresh router: 1-5 transactions of 0-12 operations each (unmanaged Txn ended by Commit/Abort, Updates/View ended by nil / error / panic after the generated prefix, single-operation helpers, read-only transactions), with nested Snapshot/Iter/reads, use-after-settle, double endings, lock probes, and a full router observation by another goroutine after every step (also inside fn); the 'prefix' family replays one operation list ended at EVERY prefix in each of the five ways; non-trivial = the history contains at least one write transaction with >= 1 successful write; distinct = distinct step lists"}
 	n := 300
 	if tier == "thorough" {
-		n = 6000
+		n = 1200
 	}
 	seen := map[string]bool{}
 	nontrivial := 0
